@@ -45,7 +45,7 @@ CHECKS = {
     "C05": ("Per-function proof that job.Close/ errorJob / resultJob Close complete the handle's wait group/response exactly once "
             "on the successful path and not at all when refused, that the pool goroutine body sends the outcome before Close, that group "
             "jobs count down one per item and close the shared response when the count reaches zero (incl. the empty batch, finding F4, fixed). "
-            "B2-lite: WgCounter.Done performs its wg.Done() whatever concurrent finishers do between its Load and its update (b2-done).",
+            "B2-lite: WgCounter.Done performs its wg.Done() whatever concurrent finishers do between its Load and its update (b2-done), and it reports 'this call finished the last item' only from the value its own atomic decrement returned (b2-last-own).",
             "contracts over WgCounter/Response ghost ($wgdone, channel counters)"),
     "C06": ("Per-function proof of the barrier bodies: WaitUntilFinished returns only on a state with no pending and no processing job "
             "(loop invariant + rely on the condition variable), PauseAndWait/WaitAndStop compose it with the status change, Stop leaves "
@@ -60,7 +60,7 @@ CHECKS = {
             "freshness ($fresh) postconditions + panic-path contracts"),
     "C08": ("Per-function proof that AddAll creates the group with buffer == number of accepted items, each item job sends exactly one "
             "result, the response channel is closed exactly once when the pending count reaches zero (chan obligations: no send on closed, "
-            "no double close), including the empty batch; every item gets a job configuration of its own (one id-generator call per item, own-config).",
+            "no double close), including the empty batch; every item gets a job configuration of its own (one id-generator call per item, own-config). B2-lite: with other members of the batch decrementing the counter at any moment, the stream is closed only by the member whose own decrement reached zero (b2-close-last; finding G5, close of closed channel, fixed).",
             "channel ghost state ($open/$sent/$cap) obligations at every send/close"),
     "C09": ("Per-function proof that the dispatcher loop dispatches only when status == running (guard assert in goEventLoop$1 / "
             "processNextJob precondition), that Pause/Stop/Resume/Restart change only status + dispatcher ghost and leave queues untouched "
